@@ -426,7 +426,7 @@ def rand_case(draw):
                 b = R.encode(render.lower(t))
             except R.NotEncodable:
                 b = b''
-            bodies.append(b[:180] if b else BODIES[0])
+            bodies.append(b if 0 < len(b) <= 180 else BODIES[0])      # never truncate: a cut instruction is not a script
     cor = draw(st.sampled_from([None] + CORRUPTIONS + CORRUPTIONS))
     dup = None
     if cor is None and n >= 3 and draw(st.booleans()):
